@@ -39,12 +39,13 @@ IsWsOther(c) == \/ c \in {11, 12, 13, 28, 29, 30, 31, 133, 160, 5760, 8232, 8233
                 \/ (c >= 8192 /\ c <= 8202)
 IsWs(c) == IsWsSimple(c) \/ IsWsOther(c)
 
-StripBy(s, Drop(_)) == LET idx == {i \in 1..Len(s) : ~Drop(s[i])} IN
-                       IF idx = {} THEN <<>> ELSE SubSeq(s, MinS(idx), MaxS(idx))
+StripBy(s, Drop(_)) == LET a == SelectInSeq(s, LAMBDA c : ~Drop(c))
+                           b == SelectLastInSeq(s, LAMBDA c : ~Drop(c))
+                       IN IF a = 0 THEN <<>> ELSE SubSeq(s, a, b)
 Strip(s) == StripBy(s, IsWs)
 StripQ(s) == StripBy(StripBy(s, LAMBDA c : c = 34), LAMBDA c : c = 39)
 
-FirstSp(s) == LET idx == {i \in 1..Len(s) : s[i] = SPc} IN IF idx = {} THEN 0 ELSE MinS(idx)
+FirstSp(s) == SelectInSeq(s, LAMBDA c : c = SPc)
 OpOf(c) == IF FirstSp(c) = 0 THEN c ELSE SubSeq(c, 1, FirstSp(c) - 1)
 SfxOf(c) == IF FirstSp(c) = 0 THEN <<>> ELSE Strip(SubSeq(c, FirstSp(c) + 1, Len(c)))
 
@@ -425,7 +426,9 @@ Res(kind) == [kind |-> kind, out |-> <<>>, errs |-> {}, cls |-> "", why |-> "", 
 Run(src, cfg) ==
     LET names == DOMAIN src
         ws0 == IF cfg.ws = "default" THEN "all" ELSE cfg.ws
-        P == [f \in names |-> Parse(src[f], ws0)]
+        (* an explicit record: TLC evaluates each field once (a function constructor [f \in S |-> ..] is
+           re-evaluated at every application) *)
+        P == [main |-> Parse(src.main, ws0), base |-> Parse(src.base, ws0), inc |-> Parse(src.inc, ws0)]
         Refs(f) == IF f \in names /\ P[f].ok THEN RefsIn(P[f].body, {"include", "extends"}) ELSE {}
         R1 == {"main"} \cup Refs("main")
         R2 == R1 \cup UNION {Refs(f) : f \in R1}
@@ -633,10 +636,14 @@ FinalAE(f) == (* independent of Parse: the last autoescape directive of the file
     LET P == Parse(src[f], "all") IN
     IF P.ae = "unset" THEN (IF cfg.ae = "None" THEN "None" ELSE "esc") ELSE P.ae
 EscapedWhereInEffect ==
-    LET aes == [f \in {res.segs[i].file : i \in 1..Len(res.segs)} |-> FinalAE(f)] IN
+    LET aM == FinalAE("main")       \* zero-arity LET definitions are evaluated lazily, at most once
+        aB == FinalAE("base")
+        aI == FinalAE("inc")
+        AEof(f) == CASE f = "main" -> aM [] f = "base" -> aB [] OTHER -> aI
+    IN
     \A i \in 1..Len(res.segs) :
         LET g == res.segs[i] IN
-        /\ g.src = "expr" => (g.esc <=> aes[g.file] # "None")
+        /\ g.src = "expr" => (g.esc <=> AEof(g.file) # "None")
         /\ g.esc => SafeText(g.s)
         /\ g.src = "raw" => ~g.esc
 (* the whole output is the concatenation of the segments *)
